@@ -46,7 +46,7 @@ fn unescape(re_str: &Src, lex_flags: &LexFlags) -> (r: Option<StrBuf>)
     //@rule n=* `RE_LEX_ESC_LITERAL\.is_match\(s\)` => `esc_literal_is_match(&s)`
     //@rule n=1 `let s = &re_str\[j\.\.\];` => `let s = re_str.slice(j, re_str.len());`
     //@rule n=* `unescaped\.push_str\(&re_str\[([^\[\]]+?)\.\.([^\[\]]+?)\]\);` => `unescaped.push_str(re_str.slice(\1, \2));`
-    //@rule n=1 `unescaped\.push_str\(&re_str\[last_pos\.\.\]\);` => `unescaped.push_str(re_str.slice(last_pos, re_str.len()));`
+    //@rule n=2 `unescaped\.push_str\(&re_str\[last_pos\.\.\]\);` => `unescaped.push_str(re_str.slice(last_pos, re_str.len()));`
     //@rule n=* `\b(c)\.len_utf8\(\)` => `len_utf8(\1)`
     //@rule n=1 `return re;` => `return None;`
     //@rule n=1 `^(\s*)Cow::from\(unescaped\)$` => `\1Some(unescaped)`
